@@ -176,7 +176,8 @@ VI(root, S0, v, D) ==
     [] S0.k = "nullable" -> IF v.t = "null" THEN /\ ~("Dev_NullArrayLengthChecked" \in D /\ IsArrMin(S0.s)) /\ ~("Dev_NullEmptyStructRefused" \in D /\ IsEmptyStruct(S0.s))
                                                  /\ ("Dev_NullableEnumAcceptsNull" \in D \/ NullListed(S0.s))
                             ELSE VI(root, S0.s, v, D)
-    [] S0.k = "enum" -> (\E i \in 1..Len(S0.vals) : S0.vals[i] = v) /\ VI(root, S0.s, v, D)
+    \* Dev_EnumIgnoresOtherKeywords: an enum type checks membership only
+    [] S0.k = "enum" -> (\E i \in 1..Len(S0.vals) : S0.vals[i] = v) /\ ("Dev_EnumIgnoresOtherKeywords" \in D \/ VI(root, S0.s, v, D))
     [] S0.k \in {"bool", "str", "int", "num", "fmt"} -> V(root, S0, v)
     [] S0.k = "arr" -> /\ v.t = "arr" /\ Len(v.v) >= S0.minI /\ (S0.maxI # NONE => Len(v.v) <= S0.maxI)
                        /\ (S0.uniq => \A i, j \in 1..Len(v.v) : i # j => v.v[i] # v.v[j])
@@ -213,11 +214,13 @@ SumDecode(S0, v, Us, D) ==
   ELSE FALSE
 \* outcomes the stale cache can produce for a shared sum
 StaleOutcomes(S0, v, D) == {SumDecode(S0, v, Us, D) : Us \in {f \in [1..Len(S0.ss) -> SUBSET {"a", "b", "c"}] : \A i \in 1..Len(S0.ss) : f[i] \in AltUnique(S0, i)}}
-Deviations == {"Dev_AbsentArrayLengthChecked", "Dev_NullArrayLengthChecked", "Dev_NullEmptyStructRefused", "Dev_NullableEnumAcceptsNull", "Dev_RequiredUndeclaredNotEnforced", "Dev_SumVariantByMemberPresence", "Dev_SumUniqueCachedOnSharedVariant"}
+Deviations == {"Dev_AbsentArrayLengthChecked", "Dev_NullArrayLengthChecked", "Dev_NullEmptyStructRefused", "Dev_NullableEnumAcceptsNull", "Dev_RequiredUndeclaredNotEnforced", "Dev_SumVariantByMemberPresence", "Dev_SumUniqueCachedOnSharedVariant", "Dev_EnumIgnoresOtherKeywords"}
 
 (******************************* schema domain *****************************)
 StrSchemas == {AnyStr, Str(2, NONE, ""), Str(0, 2, ""), Str(1, 2, ""), Str(0, 0, ""), Str(0, NONE, "^a+$"), Str(0, NONE, "b"), Str(2, 2, "^a+$"),
                Enum(<<S(<<"a">>), S(<<"b", "b">>)>>, AnyStr), Nullable(AnyStr), Nullable(Str(2, NONE, "")), Nullable(Enum(<<S(<<"a">>), Null>>, AnyStr)),
+               \* enum beside other keywords: all of them apply
+               Enum(<<S(<<"a">>), S(<<"a", "b">>), S(<<"a", "a", "a">>)>>, Str(0, 2, "")), Enum(<<S(<<"a">>), S(<<"b">>)>>, Str(0, NONE, "^a+$")),
                \* nullable beside an enum that does not list null
                Nullable(Enum(<<S(<<"a">>), S(<<"b">>)>>, AnyStr))}
 IntSchemas == {AnyInt, IntS(10, NONE, FALSE, FALSE, NONE), IntS(NONE, 30, FALSE, FALSE, NONE), IntS(10, 30, TRUE, FALSE, NONE), IntS(10, 30, FALSE, TRUE, NONE),
@@ -256,7 +259,10 @@ SumSchemas == {OneOf(<<AnyStr, AnyInt>>),
                OneOf(<<ObjAo, ObjBo>>), OneOf(<<Obj(<<P("a", AnyStr, TRUE), P("c", Bool, FALSE)>>, AT, 0, NONE), Obj(<<P("b", AnyInt, TRUE), P("c", Bool, FALSE)>>, AT, 0, NONE)>>),
                \* allOf over primitives: every bound of every member applies
                AllOf(<<IntS(NONE, 30, FALSE, TRUE, NONE), IntS(0, NONE, FALSE, FALSE, NONE)>>), AllOf(<<IntS(10, NONE, TRUE, FALSE, NONE), IntS(NONE, 30, FALSE, FALSE, NONE)>>),
-               AllOf(<<Num(NONE, 15, FALSE, TRUE, NONE), Num(5, NONE, TRUE, FALSE, NONE)>>), AllOf(<<Str(1, NONE, ""), Str(0, 2, "")>>),
+               AllOf(<<Num(NONE, 15, FALSE, TRUE, NONE), Num(5, NONE, TRUE, FALSE, NONE)>>),
+               \* the exclusive flag belongs to the bound that wins
+               AllOf(<<IntS(NONE, 30, FALSE, TRUE, NONE), IntS(NONE, 20, FALSE, FALSE, NONE)>>), AllOf(<<IntS(10, NONE, TRUE, FALSE, NONE), IntS(20, NONE, FALSE, FALSE, NONE)>>),
+               AllOf(<<IntS(NONE, 20, FALSE, FALSE, NONE), IntS(NONE, 20, FALSE, TRUE, NONE)>>), Enum(<<N(10), N(30)>>, IntS(NONE, 20, FALSE, FALSE, NONE)), AllOf(<<Str(1, NONE, ""), Str(0, 2, "")>>),
                AllOf(<<Arr(AnyInt, 1, NONE, FALSE), Arr(AnyInt, 0, 2, TRUE)>>),
                \* required names that properties does not declare
                Obj(<<P("a", AnyStr, FALSE), PH("c")>>, AT, 0, NONE), Obj(<<PH("b")>>, AT, 0, NONE), OneOf(<<Str(2, NONE, ""), IntS(10, NONE, FALSE, FALSE, NONE), Bool>>), OneOf(<<ObjA, ObjB>>), OneOf(<<AnyStr, Arr(AnyInt, 0, NONE, FALSE)>>),
